@@ -26,6 +26,11 @@ Record cpresp := { r_answer : bytes; r_error : bytes }.
 Definition STR_NO_PROXIES : bytes := bs "no snowflake proxies currently available".
 Definition STR_TIMED_OUT : bytes := bs "timed out waiting for answer!".
 
+Definition READ_LIMIT_N : N := 100000.
+(* ioutil.ReadAll(http.MaxBytesReader(w, r.Body, readLimit)) *)
+Definition read_body (sent : bytes) : readres :=
+  if READ_LIMIT_N <? N.of_nat (List.length sent) then ReadTooLarge else ReadOk sent.
+
 Section Handlers.
   (* codecs (library/common boundary; modelled and proved in Model/Messages.v for C12) *)
   Variable encode_client_poll_request : bytes -> bytes -> bytes.   (* offer, NAT header -> versioned body *)
@@ -91,9 +96,12 @@ Section Handlers.
          | None => HResp 200 (amp_armor (encode_client_error (bs "cannot decode URL path")))
          end.
 
-  (* the versioned POST a legacy request is shimmed into *)
+  (* the versioned POST a legacy request is shimmed into, as the handler reads it when it is sent directly: through the
+     same read limit as every POSTed body. The shim itself hands the encoded body to IPC without that limit: a legacy
+     body within the limit whose encoding (JSON escaping of the offer, the NAT type, the default fingerprint) exceeds
+     it is served on the legacy route while its twin is a 400 (Properties/C14.v, C14_legacy_shim_diverges_over_limit). *)
   Definition versioned_twin (offer nat_header : bytes) : readres :=
-    ReadOk (encode_client_poll_request offer nat_header).
+    read_body (encode_client_poll_request offer nat_header).
 End Handlers.
 
 (* SnowflakeHandler.ServeHTTP: CORS preflight returns early with an empty 200 *)
@@ -178,11 +186,6 @@ Record hreq := {
   q_path : bytes;                      (* r.URL.Path *)
   q_hdrs : list (bytes * bytes);       (* header lines, in order *)
   q_sent : bytes }.                    (* the request body as sent *)
-
-Definition READ_LIMIT_N : N := 100000.
-(* ioutil.ReadAll(http.MaxBytesReader(w, r.Body, readLimit)) *)
-Definition read_body (sent : bytes) : readres :=
-  if READ_LIMIT_N <? N.of_nat (List.length sent) then ReadTooLarge else ReadOk sent.
 
 (* ---- what /debug, /metrics and /prometheus show of the broker state ---- *)
 Record bview := {
